@@ -116,7 +116,13 @@ def firstViolation (r : Req) (m : List (String × String)) : Option String :=
       -- "exact destination path": the text given, the same without the cpio-style leading ".", or
       -- its separator-normalised form are all accepted (they name the same file)
       let paths := [C05.hx f.dest, C05.hx (if f.dest.head? == some 46 then f.dest.drop 1 else f.dest), C05.hx (expectPath f.dest)]
-      match entries.find? (fun e => match (e.splitOn ",").head? with | some p => paths.contains p | none => false) with
+      -- … and so does any absolute text with the same name components in the same order (`/a/./b/f/` is read back as `/a/./b/f`)
+      let sameFile (p : String) : Bool := match bytesOfHex p with
+        | some b => b.head? == some 47 && RpmVerif.Path.nameComps b == RpmVerif.Path.nameComps f.dest
+        | none => false
+      -- (an exact spelling is preferred: `/x/f` and `//x/f` are two files with the same components)
+      let pathOf (e : String) : String := ((e.splitOn ",").head?).getD ""
+      match (entries.find? (fun e => paths.contains (pathOf e))).orElse (fun _ => entries.find? (fun e => sameFile (pathOf e))) with
       | none => some "file-missing"
       | some e =>
         match e.splitOn "," with
